@@ -151,6 +151,53 @@ theorem mem_newTr_iff {c c' : Cfg} {evs : List Tr} (h : shapeTr (newTr c c') = e
     t ∈ newTr c c' ↔ t ∈ evs := by
   rw [← h, mem_shapeTr]; simp [ht]
 
+/-! ### the history hypotheses are inherited by earlier configurations -/
+
+theorem newTr_trans {a b c : Cfg} (g1 : Grow a b) (g2 : Grow b c) : newTr a c = newTr b c ++ newTr a b := by
+  obtain ⟨n1, h1⟩ := g1
+  obtain ⟨n2, h2⟩ := g2
+  rw [newTr_of_grow h1, newTr_of_grow h2, newTr_of_grow (new := n2 ++ n1) (by rw [h2, h1, List.append_assoc])]
+
+theorem newTr_self (a : Cfg) : newTr a a = [] := by simp [newTr]
+
+theorem mem_tr_of_mem_newTr {a b : Cfg} (g : Grow a b) {t : Tr} (h : t ∈ newTr a b) : t ∈ b.tr := by
+  obtain ⟨n, hn⟩ := g
+  rw [newTr_of_grow hn] at h
+  rw [hn]; exact List.mem_append_left _ h
+
+theorem WFClose.mono {c c' : Cfg} (g : Grow c c') (h : WFClose c') : WFClose c := by
+  obtain ⟨n, hn⟩ := g
+  unfold WFClose at h ⊢
+  rw [hn, List.all_append, Bool.and_eq_true] at h
+  exact h.2
+
+theorem WFOpen.mono {c c' : Cfg} (g : Grow c c') (h : WFOpen c') : WFOpen c := by
+  obtain ⟨n, hn⟩ := g
+  unfold WFOpen at h ⊢
+  rw [hn, List.all_append, Bool.and_eq_true] at h
+  exact h.2
+
+theorem WFDrain.mono {c c' : Cfg} (g : Grow c c') (h : WFDrain c') : WFDrain c := by
+  obtain ⟨n, hn⟩ := g
+  unfold WFDrain at h ⊢
+  rw [hn] at h
+  exact noDoubleClose_append h
+
+theorem NoForceQuit.mono {c c' : Cfg} (g : Grow c c') (h : NoForceQuit c') : NoForceQuit c := by
+  obtain ⟨n, hn⟩ := g
+  unfold NoForceQuit at h ⊢
+  rw [hn] at h
+  exact fun hm => h (List.mem_append_right _ hm)
+
+theorem trans_grow {P : Prog} {c c' : Cfg} (ht : Trans P c c') : Grow c c' := (trans_sstep ht).choose_spec.2.2
+
+theorem reach_reach {P : Prog} {c0 c1 c2 : Cfg} (h1 : Reach P c0 c1) (h2 : Reach P c1 c2) : Reach P c0 c2 := by
+  induction h2 with
+  | init => exact h1
+  | step _ hs ih => exact .step ih hs
+  | deliver _ hd ih => exact .deliver ih hd
+  | halt _ hs ih => exact .halt ih hs
+
 end Shape
 
 end Simpleline
